@@ -10,6 +10,17 @@ CHECKS = {
     note="Trusted: my tree walk and the rough lexer used only for failure descriptions; SimpleParserDatabase is the parser entry point. Inputs are valid UTF-8 <= 16 KiB."),
 }
 
+CHECKS["C09"] = dict(
+    level="exploration", design="DESIGN.md 3/C09",
+    technique="property-based testing: proptest-driven text mutators (byte/token/subtree mutants of the .cairo corpus, token soups, depth stressors) in crash-isolated worker processes; oracle: no panic / signal / CPU runaway, diagnostic spans inside their file",
+    text="~64k (quick) / ~640k (thorough) generated texts go through lex+parse+format, a quarter of them also through semantic+lowering diagnostics with the corelib (Starknet plugins when the text mentions them). Panics are keyed by call site, process deaths are reproduced twice in fresh processes before they count. Exploration: totality over all texts cannot be enumerated; the oracle is exact per input.",
+    note="Trusted: catch_unwind + subprocess isolation; 8 MiB stacks; CPU-time rule for runaways; inputs valid UTF-8 <= 16 KiB, nesting <= 200. Listed known findings (panic sites reachable with garbled contracts) are reported as KNOWN-FINDING.")
+CHECKS["C11"] = dict(
+    level="exploration", design="DESIGN.md 3/C11",
+    technique="property-based testing: layout-mutated error-free corpus texts x FormatterConfig lattice; oracles: round-trip (output parses, f(f(t)) == f(t)), token/comment preservation modulo stated optional separators, metamorphic Sierra(f(t)) == Sierra(t)",
+    text="~19k (quick) / ~256k (thorough) (text, config) pairs: runs of items of every parser-clean .cairo file, whitespace/comment/comma mutated, formatted under sampled configurations; five oracles per case, all evaluated even when an earlier one hits a known finding. Exploration with exact per-input oracles.",
+    note="Trusted: my token/comment extraction over the syntax tree and the normalisation N1-N3 (DESIGN C11) of meaning-free optional separators; Sierra equality (debug names, source offsets stripped) checks that these never change code. Known findings: comment-placement non-idempotence, use-section regrouping, macro-rule comments, '/'+comment gluing.")
+
 PENDING_REASON = "check not built yet in this session (planned in DESIGN.md section 3; the property itself is amenable to the technique)"
 
 def main():
